@@ -2,7 +2,7 @@
 from .. import harness as H
 from .. import progs, sim
 
-FAMS = ["B", "I1", "S", "T"]
+FAMS = ["B", "I1", "S", "T", "M"]
 
 
 def fams_available():
@@ -27,12 +27,22 @@ def cases(shard):
         c["uncompute"] = cfg[1]
         c["key"] = "%s|unc=%d|%s" % (cfg[0], int(cfg[1]), c["src"])
         yield c
+        if shard["fam"] in ("T", "I1") and shard.get("kind", "d1") == "d1" and cfg[0] == "default":
+            r = dict(c)
+            r["recompile"] = True
+            r["key"] = "recompile|" + c["key"]
+            yield r
 
 
 def compile_case(case):
     """Returns (qf, None) or (None, result-dict for a rejection)."""
     try:
-        qf = H.compile_src(case["src"], case["profile"], case["uncompute"])
+        if case.get("recompile"):
+            # the same object compiled first with the opposite flag, then with the wanted one
+            qf = H.compile_src(case["src"], case["profile"], not case["uncompute"])
+            qf.compile("internal", uncompute=case["uncompute"])
+        else:
+            qf = H.compile_src(case["src"], case["profile"], case["uncompute"])
     except Exception as e:  # rejection by the front end or the compiler: not judged here
         return None, {"status": "rejected", "rows": 0, "nontrivial": False,
                       "outcome": "rej:" + H.exc_name(e), "counters": {"rejected_" + H.exc_name(e): 1}}
